@@ -22,11 +22,12 @@ def prove(ctx):
         if good:
             continue
         short = name.split('.')[-1]
-        for pre in ('irp_agree_', 'irp_print_', 'c02_', 'wf_', 'wftol_'):
+        for pre in ('irp_ditto_print_', 'irp_ditto_', 'irp_agree_', 'irp_print_', 'c02_', 'wf_', 'wftol_'):
             if short.startswith(pre):
                 tail = short[len(pre):]
                 if pre.startswith('wf') and tail.rsplit('_', 1)[-1].isdigit():
                     tail = tail.rsplit('_', 1)[0]
                 failed.add(tail)
+                break
     ctx.extra['failed_protocols'] = sorted(failed)
     return ok
